@@ -202,6 +202,6 @@ def run(ctx):
     for i in ctx.insts[n0:]:
         i.rule = "C13.RADIX"
     ctx.floors = {k: v for k, v in ctx.floors.items() if k.startswith("C13")}
-    from .. import truth
-    truth.rule(ctx, "C13.TRUTH", ctx.py, ["rdsystem", "value_processing"], floor=30)
+    from .. import lints
+    lints.run(ctx, "C13", ctx.py, ["rdsystem", "value_processing"], truth_floor=30)
     ctx.assume("the values themselves are not decided; environment indices are range-checked by C20.EXTIDX")
